@@ -171,14 +171,15 @@ func runRearmCase(reg uint16, rc rearmCase) {
 	// park the goroutine that wakes the gatekeeper: from now on only the node-down fan-out sends to it
 	gate := hk.Park("proc.run.wake", hk.Eq(gk.pid), false).SetMaxWait(15 * time.Second)
 	lStop := hk.Tick()
-	if rc.Stop == "cut+stopforce" {
-		// the peer's acceptor is gone first, then the link breaks
-		go p.R.CutAll()
-	}
 	if rc.Stop == "stop" {
 		p.B.Stop()
 	} else {
 		p.B.StopForce()
+	}
+	if rc.Stop == "cut+stopforce" {
+		// the peer is gone, then the relay drops its sockets as well (not concurrently: a re-dial of the
+		// victim racing its own stop can leave a served socket behind in this shared OS process)
+		p.R.CutAll()
 	}
 	arrived := gate.WaitArrived(20 * time.Second)
 	lArrived := hk.Tick()
